@@ -3,7 +3,7 @@ C06 — the segments generated from the GeneratorObject part of src/asynkit/moni
 (`Asynkit/Gen/Monitor.lean`, translator/monitor2lean.py) are the transitions of
 `Asynkit/Model/AsyncGen.lean` the C06 theorems are about, for every state / argument / resumption:
 
-  GeneratorObjectIterator._first_iter  = `hookInit`
+  GeneratorObjectIterator._first_iter  = `hookInit` + the possibly raising hook call (`goiCallH`), in place
   GeneratorObjectIterator.__del__      = `goiHookGC`
   asend / _athrow (athrow, aclose) / __anext__   = `goiStart` + `goiHookCall` (entry), `goiResume` (resumption)
   GeneratorObject.ayield               = `Monitor.oob` (one more frame)
@@ -25,12 +25,10 @@ def ofGoi {ub : UB} {L : Type} (mk : YV → L) (hs : HookSt) (evs : List HookEv)
   | (g, .returned v) => .returned v (stOf g hs evs)
   | (g, .raised e) => .raised e (stOf g hs evs)
 
-theorem firstIter_eq (ub : UB) (cfg : HookCfg) (cs : CSt ub.σ) (env : Env) (running : Bool)
-    (hs : HookSt) (evs : List HookEv) :
-    goiFirst_iterP ub cfg (cs, env, running, hs, evs) =
-      (cs, env, running, (hookInit cfg hs).1, evs ++ (hookInit cfg hs).2) := by
-  unfold goiFirst_iterP hookInit
-  cases hi : hs.inited <;> cases hf : cfg.firstiter <;> simp [hi, hf]
+/-- outcome of a consumer call with the hooks in force -/
+def ofGoiH {ub : UB} {L : Type} (mk : YV → L) (evs : List HookEv) :
+    (Goi ub × HookSt) × CallOut × List HookEv → Seg L (GSt ub)
+  | ((g, hs), o, evs') => ofGoi mk hs (evs ++ evs') (g, o)
 
 theorem del_eq (ub : UB) (cfg : HookCfg) (g : Goi ub) (hs : HookSt) (evs : List HookEv) :
     goiDel ub cfg (stOf g hs evs) = stOf g hs (evs ++ goiHookGC hs g) := by
@@ -76,20 +74,29 @@ macro "goi_bash" : tactic => `(tactic| (
   | (simp_all (config := { decide := true }) [ofGoi, stOf, ofOut, goiStart, goiResume, Goi.put, Goi.sys,
       COp.monOp, COp.finish, asendFinish, athrowFinish, PyExc.leave, PyExc.isGeneratorExit, PyExc.asOOBData,
       PyExc.isStopAsyncIteration, NoSI, coroFinished, coroNew, SCoro.isDone, isCreated, goiHookCall, mkP, copOf,
-      callStart_aawait, callStart_athrow, callResume_aawait, callResume_athrow, PyThrow.exc, PyThrow.isNone])))
+      callStart_aawait, callStart_athrow, callResume_aawait, callResume_athrow, PyThrow.exc, PyThrow.isNone,
+      ofGoiH, goiCallH, hookRaised, hookCall, hookInit, nativeHookCall])))
 
-/-- `asend`, from the call: the state checks, `_first_iter`, `ag_running`, the relay, the exception mapping -/
+/-- `asend`, from the call: the state checks, `_first_iter` (whose hook may raise), `ag_running`, the relay,
+    the exception mapping -/
 theorem asendEntry_eq (ub : UB) (cfg : HookCfg) (v : Val) (g : Goi ub) (hs : HookSt) (evs : List HookEv) :
     goiAsendEntry ub cfg v (stOf g hs evs) =
-      ofGoi (fun y => GoiAsendSusp.p0 (.p0 (.p0 y))) (goiHookCall cfg hs g).1 (evs ++ (goiHookCall cfg hs g).2)
-        (goiStart ub (.asend v) g) := by
+      ofGoiH (fun y => GoiAsendSusp.p0 (.p0 (.p0 y))) evs (goiCallH ub cfg hs (.asend v) g) := by
   obtain ⟨coro, env, running⟩ := g
   unfold goiAsendEntry
-  simp only [stOf, firstIter_eq, aawaitEntry_goi]
+  simp only [stOf, aawaitEntry_goi]
   have hns := asendStart_noSI 0 (.send v) (⟨coro, env⟩ : Sys (ofM (asGoi ub)))
   rcases hx : asendStart 0 (.send v) (⟨coro, env⟩ : Sys (ofM (asGoi ub))) with ⟨⟨cs', env'⟩, o⟩
   rw [hx] at hns
-  cases running <;> cases coro <;> cases o <;> (try rename_i e; cases e) <;> goi_bash
+  cases running with
+  | true => goi_bash
+  | false =>
+    cases coro with
+    | done s => goi_bash
+    | susp s => cases o <;> (try rename_i e; cases e) <;> goi_bash
+    | created s =>
+      cases hi : hs.inited <;> cases hf : cfg.firstiter <;> cases hr : cfg.raises <;>
+        cases o <;> (try rename_i e; cases e) <;> goi_bash
 
 theorem asendResume_eq (ub : UB) (cfg : HookCfg) (v : Val) (y0 : YV) (r : Resume) (g : Goi ub) (hs : HookSt)
     (evs : List HookEv) (hrun : g.running = true) :
@@ -117,22 +124,37 @@ theorem asendResume_eq (ub : UB) (cfg : HookCfg) (v : Val) (y0 : YV) (r : Resume
       cases x <;> first | exact absurd rfl hge | (cases o <;> (try rename_i e; cases e) <;> goi_bash)
 
 theorem athrowPEntry_eq (ub : UB) (cfg : HookCfg) (t : PyThrow) (g : Goi ub) (hs : HookSt) (evs : List HookEv) :
-    goiAthrowPEntry ub cfg t (stOf g hs evs) =
-      ofGoi (mkP t) (goiHookCall cfg hs g).1 (evs ++ (goiHookCall cfg hs g).2) (goiStart ub (copOf t) g) := by
+    goiAthrowPEntry ub cfg t (stOf g hs evs) = ofGoiH (mkP t) evs (goiCallH ub cfg hs (copOf t) g) := by
   obtain ⟨coro, env, running⟩ := g
   unfold goiAthrowPEntry
-  simp only [stOf, firstIter_eq, athrowEntry_goi]
+  simp only [stOf, athrowEntry_goi]
   cases t with
   | none3 =>
     have hns := asendStart_noSI 0 (.throw .genExit) (⟨coro, env⟩ : Sys (ofM (asGoi ub)))
     rcases hx : asendStart 0 (.throw .genExit) (⟨coro, env⟩ : Sys (ofM (asGoi ub))) with ⟨⟨cs', env'⟩, o⟩
     rw [hx] at hns
-    cases running <;> cases coro <;> cases o <;> (try rename_i e; cases e) <;> goi_bash
+    cases running with
+    | true => goi_bash
+    | false =>
+      cases coro with
+      | done s => goi_bash
+      | susp s => cases o <;> (try rename_i e; cases e) <;> goi_bash
+      | created s =>
+        cases hi : hs.inited <;> cases hf : cfg.firstiter <;> cases hr : cfg.raises <;>
+          cases o <;> (try rename_i e; cases e) <;> goi_bash
   | args x =>
     have hns := asendStart_noSI 0 (.throw x) (⟨coro, env⟩ : Sys (ofM (asGoi ub)))
     rcases hx : asendStart 0 (.throw x) (⟨coro, env⟩ : Sys (ofM (asGoi ub))) with ⟨⟨cs', env'⟩, o⟩
     rw [hx] at hns
-    cases running <;> cases coro <;> cases o <;> (try rename_i e; cases e) <;> goi_bash
+    cases running with
+    | true => goi_bash
+    | false =>
+      cases coro with
+      | done s => goi_bash
+      | susp s => cases o <;> (try rename_i e; cases e) <;> goi_bash
+      | created s =>
+        cases hi : hs.inited <;> cases hf : cfg.firstiter <;> cases hr : cfg.raises <;>
+          cases o <;> (try rename_i e; cases e) <;> goi_bash
 
 theorem athrowPResume_eq (ub : UB) (cfg : HookCfg) (t : PyThrow) (y0 : YV) (r : Resume) (g : Goi ub)
     (hs : HookSt) (evs : List HookEv) (hrun : g.running = true) :
@@ -198,37 +220,13 @@ theorem goiResume_noSI (ub : UB) (op : COp) (r : Resume) (g : Goi ub) : NoSI (go
   cases op <;> (simp only [COp.finish]; cases hx : (callResume 0 _ r g.sys).2 <;>
     (try rename_i e; cases e) <;> simp_all [asendFinish, athrowFinish, NoSI])
 
-theorem anextEntry_eq (ub : UB) (cfg : HookCfg) (g : Goi ub) (hs : HookSt) (evs : List HookEv) :
-    goiAnextEntry ub cfg (stOf g hs evs) =
-      ofGoi (fun y => GoiAnextSusp.p0 (.p0 (.p0 (.p0 y)))) (goiHookCall cfg hs g).1 (evs ++ (goiHookCall cfg hs g).2)
-        (goiStart ub (.asend 0) g) := by
-  unfold goiAnextEntry
-  have e := asendEntry_eq ub cfg 0 g hs evs
-  simp only [stOf] at e ⊢
-  rw [e]
-  have hns := goiStart_noSI ub (.asend 0) g
-  rcases hx : goiStart ub (.asend 0) g with ⟨g', o⟩
-  rw [hx] at hns
-  cases o with
-  | pending y => simp [ofGoi, stOf]
-  | returned w => simp [ofGoi, stOf]
-  | raised e => simp [ofGoi, stOf, leave_exc e (fun v h => hns v (by rw [h]))]
-
-theorem athrowEntry_eq (ub : UB) (cfg : HookCfg) (x : Exc) (g : Goi ub) (hs : HookSt) (evs : List HookEv) :
-    goiAthrowEntry ub cfg (.args x) (stOf g hs evs) =
-      ofGoi (fun y => GoiAthrowSusp.p0 (mkP (.args x) y)) (goiHookCall cfg hs g).1 (evs ++ (goiHookCall cfg hs g).2)
-        (goiStart ub (.athrow x) g) := by
-  unfold goiAthrowEntry
-  have e := athrowPEntry_eq ub cfg (.args x) g hs evs
-  simp only [stOf, copOf] at e ⊢
-  rw [e]
-  have hns := goiStart_noSI ub (.athrow x) g
-  rcases hx : goiStart ub (.athrow x) g with ⟨g', o⟩
-  rw [hx] at hns
-  cases o with
-  | pending y => simp [ofGoi, stOf]
-  | returned w => simp [ofGoi, stOf]
-  | raised e => simp [ofGoi, stOf, leave_exc e (fun v h => hns v (by rw [h]))]
+theorem goiCallH_noSI (ub : UB) (cfg : HookCfg) (hs : HookSt) (op : COp) (g : Goi ub) :
+    NoSI (goiCallH ub cfg hs op g).2.1 := by
+  unfold goiCallH
+  simp only
+  by_cases hr : hookRaised cfg (goiHookCall cfg hs g).2 = true
+  · simp only [hr, ↓reduceIte]; intro v; simp [hookExc]
+  · simp only [hr]; exact goiStart_noSI ub op g
 
 theorem goiStart_aclose_ret (ub : UB) (g g' : Goi ub) (w : Val) (h : goiStart ub .aclose g = (g', .returned w)) :
     w = 0 := by
@@ -241,21 +239,56 @@ theorem goiStart_aclose_ret (ub : UB) (g g' : Goi ub) (w : Val) (h : goiStart ub
       cases hx : (callStart 0 COp.aclose.monOp g.sys).2 <;> (try rename_i e; cases e) <;>
         simp_all [athrowFinish]
 
-theorem acloseEntry_eq (ub : UB) (cfg : HookCfg) (g : Goi ub) (hs : HookSt) (evs : List HookEv) :
-    goiAcloseEntry ub cfg (stOf g hs evs) =
-      ofGoi (fun y => GoiAcloseSusp.p0 (mkP .none3 y)) (goiHookCall cfg hs g).1 (evs ++ (goiHookCall cfg hs g).2)
-        (goiStart ub .aclose g) := by
+theorem goiCallH_aclose_ret (ub : UB) (cfg : HookCfg) (hs : HookSt) (g : Goi ub) (x : Goi ub × HookSt)
+    (evs' : List HookEv) (w : Val) (h : goiCallH ub cfg hs .aclose g = (x, .returned w, evs')) : w = 0 := by
+  unfold goiCallH at h
+  simp only at h
+  by_cases hr : hookRaised cfg (goiHookCall cfg hs g).2 = true
+  · simp [hr] at h
+  · simp [hr] at h
+    exact goiStart_aclose_ret ub g (goiStart ub .aclose g).1 w (by rw [← h.2.1])
+
+theorem anextEntry_eq (ub : UB) (cfg : HookCfg)  (g : Goi ub) (hs : HookSt) (evs : List HookEv) :
+    goiAnextEntry ub cfg  (stOf g hs evs) = ofGoiH (fun y => GoiAnextSusp.p0 (.p0 (.p0 (.p0 y)))) evs (goiCallH ub cfg hs (.asend 0) g) := by
+  unfold goiAnextEntry
+  have e := asendEntry_eq ub cfg 0 g hs evs
+  simp only [stOf, copOf] at e ⊢
+  rw [e]
+  have hns := goiCallH_noSI ub cfg hs (.asend 0) g
+  rcases hx : goiCallH ub cfg hs (.asend 0) g with ⟨⟨g', hs'⟩, o, evs'⟩
+  rw [hx] at hns
+  cases o with
+  | pending y => simp [ofGoiH, ofGoi, stOf, mkP]
+  | returned w => simp [ofGoiH, ofGoi, stOf]
+  | raised e => simp [ofGoiH, ofGoi, stOf, leave_exc e (fun v h => hns v (by rw [h]))]
+
+theorem athrowEntry_eq (ub : UB) (cfg : HookCfg) (x : Exc) (g : Goi ub) (hs : HookSt) (evs : List HookEv) :
+    goiAthrowEntry ub cfg (.args x) (stOf g hs evs) = ofGoiH (fun y => GoiAthrowSusp.p0 (mkP (.args x) y)) evs (goiCallH ub cfg hs (.athrow x) g) := by
+  unfold goiAthrowEntry
+  have e := athrowPEntry_eq ub cfg (.args x) g hs evs
+  simp only [stOf, copOf] at e ⊢
+  rw [e]
+  have hns := goiCallH_noSI ub cfg hs (.athrow x) g
+  rcases hx : goiCallH ub cfg hs (.athrow x) g with ⟨⟨g', hs'⟩, o, evs'⟩
+  rw [hx] at hns
+  cases o with
+  | pending y => simp [ofGoiH, ofGoi, stOf, mkP]
+  | returned w => simp [ofGoiH, ofGoi, stOf]
+  | raised e => simp [ofGoiH, ofGoi, stOf, leave_exc e (fun v h => hns v (by rw [h]))]
+
+theorem acloseEntry_eq (ub : UB) (cfg : HookCfg)  (g : Goi ub) (hs : HookSt) (evs : List HookEv) :
+    goiAcloseEntry ub cfg  (stOf g hs evs) = ofGoiH (fun y => GoiAcloseSusp.p0 (mkP .none3 y)) evs (goiCallH ub cfg hs .aclose g) := by
   unfold goiAcloseEntry
   have e := athrowPEntry_eq ub cfg .none3 g hs evs
   simp only [stOf, copOf] at e ⊢
   rw [e]
-  have hns := goiStart_noSI ub .aclose g
-  rcases hx : goiStart ub .aclose g with ⟨g', o⟩
+  have hns := goiCallH_noSI ub cfg hs .aclose g
+  rcases hx : goiCallH ub cfg hs .aclose g with ⟨⟨g', hs'⟩, o, evs'⟩
   rw [hx] at hns
   cases o with
-  | pending y => simp [ofGoi, stOf]
-  | returned w => have := goiStart_aclose_ret ub g g' w hx; subst this; simp [ofGoi, stOf]
-  | raised e => simp [ofGoi, stOf, leave_exc e (fun v h => hns v (by rw [h]))]
+  | pending y => simp [ofGoiH, ofGoi, stOf, mkP]
+  | returned w => have := goiCallH_aclose_ret ub cfg hs g (g', hs') evs' w hx; subst this; simp [ofGoiH, ofGoi, stOf]
+  | raised e => simp [ofGoiH, ofGoi, stOf, leave_exc e (fun v h => hns v (by rw [h]))]
 
 theorem goiResume_aclose_ret (ub : UB) (r : Resume) (g g' : Goi ub) (w : Val)
     (h : goiResume ub .aclose r g = (g', .returned w)) : w = 0 := by
